@@ -102,7 +102,7 @@ def _worker(args):
 
 def check(tier):
     ck = core.Check("C15", tier)
-    shards, n = (16, 1300) if tier == "quick" else (64, 8000)
+    shards, n = (16, 2500) if tier == "quick" else (64, 8000)
     res = core.pmap(_worker, [(ck.seed, i, n, "asan") for i in range(shards)])
     counters = sem.merge(ck, res)
     ck.cov["rule"] = ("random histories of 4-24 calls over up to 3 objects with arbitrary int arguments to every setter "
